@@ -271,7 +271,7 @@ func Load(ctx context.Context, wd string, env []string, tags string, patterns []
 		scope := pkg.Types.Scope()
 		for _, name := range scope.Names() {
 			obj := scope.Lookup(name)
-			if !isProviderSetType(obj.Type()) {
+			if _, isVar := obj.(*types.Var); !isVar || !isProviderSetType(obj.Type()) {
 				continue
 			}
 			item, errs := oc.get(obj)
